@@ -123,7 +123,7 @@ pub fn check_ring(run: &mut Run, c: MCell, segments: Option<i32>, closed: bool, 
 fn run(ctx: &Ctx) -> Run {
     silence_panics();
     let threads = ctx.threads;
-    let exhaustive_to: i32 = if ctx.quick() { 3 } else { 4 };
+    let exhaustive_to: i32 = if ctx.quick() { 3 } else { 5 };
     let mut out = parallel(threads, |w, run| {
         let mut rng = ctx.rng("C11", w);
         let fr = Frame::new();
